@@ -20,9 +20,33 @@ type AelEdge struct {
 	Horiz  bool `json:"horiz"`
 }
 
+// Xing: one intersection node as it is processed: position (1-based) of edge1 in the active edge list
+// at that moment, whether edge2 is its right-hand neighbour, and the rounded intersection point
+type Xing struct {
+	Pos  int  `json:"pos"`
+	Left bool `json:"left"`
+	Pt   Pt   `json:"pt"`
+}
+
 type Beam struct {
 	Y   int64     `json:"y"`
 	Ael []AelEdge `json:"ael"`
+	Xs  []Xing    `json:"xs"` // intersections processed between this scan-line and the next
+}
+
+// Ring: one output record at the end of the sweep (before cleaning / path building)
+type Ring struct {
+	Idx      int  `json:"idx"`
+	Owner    int  `json:"owner"` // -1: none
+	HasPts   bool `json:"hasPts"`
+	Open     bool `json:"open"`
+	FrontNil bool `json:"frontNil"`
+	BackNil  bool `json:"backNil"`
+	NFwd     int  `json:"nFwd"`
+	NBack    int  `json:"nBack"`
+	LinksOK  bool `json:"linksOK"`
+	OpsOwned bool `json:"opsOwned"`
+	Pts      Path `json:"pts"`
 }
 
 type SweepEv struct {
@@ -32,15 +56,22 @@ type SweepEv struct {
 	Fr   int      `json:"fr"`
 	Subj Paths    `json:"subj"`
 	Clip Paths    `json:"clip"`
+	Tree bool     `json:"tree"` // executed through ExecutePolyTree64 (owners matter)
 
 	Out     string `json:"out"`
 	Ok      bool   `json:"ok"`
 	Beams   []Beam `json:"beams"`
+	Rings   []Ring `json:"rings"`
+	Sol     Paths  `json:"sol"`
+	Probes  []Pt   `json:"probes"`
+	Hints   int    `json:"hints"`
 	Nontriv bool   `json:"nontriv"`
 }
 
-func execSweep(e *SweepEv) {
+func execSweep(r *rand.Rand, e *SweepEv) {
 	e.Beams = []Beam{}
+	e.Rings = []Ring{}
+	e.Sol = Paths{}
 	e.Ok = true
 	e.Out = safeCall(func() {
 		c := clipper.NewClipper64()
@@ -49,20 +80,75 @@ func execSweep(e *SweepEv) {
 			if obj != me {
 				return
 			}
-			b := Beam{Y: y, Ael: []AelEdge{}}
+			b := Beam{Y: y, Ael: []AelEdge{}, Xs: []Xing{}}
 			for _, a := range ael {
 				b.Ael = append(b.Ael, AelEdge{Bot: Pt{a.Bot.X, a.Bot.Y}, Top: Pt{a.Top.X, a.Top.Y}, Wdx: a.WindDx, Clip: a.IsClip,
 					Open: a.IsOpen, Wc: a.WindCount, Wc2: a.WindCount2, Hot: a.Hot, Joined: a.Joined, Horiz: a.Horiz})
 			}
 			e.Beams = append(e.Beams, b)
 		}
-		defer func() { clipper.VerifSweepHook = nil }()
+		clipper.VerifIntersectHook = func(obj any, pos int, left bool, pt clipper.Point64) {
+			if obj != me || len(e.Beams) == 0 {
+				return
+			}
+			b := &e.Beams[len(e.Beams)-1]
+			b.Xs = append(b.Xs, Xing{Pos: pos + 1, Left: left, Pt: Pt{pt.X, pt.Y}})
+		}
+		clipper.VerifOutRecHook = func(obj any, recs []clipper.VerifOutRec) {
+			if obj != me {
+				return
+			}
+			for _, q := range recs {
+				e.Rings = append(e.Rings, Ring{Idx: q.Idx, Owner: q.OwnerIdx, HasPts: q.HasPts, Open: q.IsOpen, FrontNil: q.FrontNil,
+					BackNil: q.BackNil, NFwd: q.NFwd, NBack: q.NBack, LinksOK: q.LinksOK, OpsOwned: q.OpsOwned, Pts: nzp(from64(q.Pts))})
+			}
+		}
+		defer func() { clipper.VerifSweepHook, clipper.VerifIntersectHook, clipper.VerifOutRecHook = nil, nil, nil }()
 		c.AddPaths(toPaths64(e.Subj), clipper.Subject, false)
 		c.AddPaths(toPaths64(e.Clip), clipper.Clip, false)
+		if e.Tree {
+			t := clipper.NewPolyTree64()
+			var o clipper.PathsD
+			e.Ok = c.ExecutePolyTree64(clipper.ClipType(e.Ct), clipper.FillRule(e.Fr), t, &o)
+			for _, n := range flattenT(t.PolyPathBase) {
+				e.Sol = append(e.Sol, n.Poly)
+			}
+			return
+		}
 		var s clipper.Paths64
 		e.Ok = c.Execute(clipper.ClipType(e.Ct), clipper.FillRule(e.Fr), &s)
+		e.Sol = nz(fromPaths64(s))
 	})
-	e.Nontriv = len(e.Beams) >= 3
+	// region probes: judged against the raw rings and the final solution alike
+	raw := Paths{}
+	for _, q := range e.Rings {
+		if q.HasPts && !q.Open {
+			raw = append(raw, q.Pts)
+		}
+	}
+	farIn := func(p Pt) bool { return farClosed(p, e.Subj, 8) && farClosed(p, e.Clip, 8) }
+	bad := func(p Pt) bool {
+		if !farIn(p) {
+			return false
+		}
+		ex := expected(e.Ct, e.Fr, e.Subj, e.Clip, p)
+		return (wnPaths(p, raw) != 0) != ex || (wnPaths(p, e.Sol) != 0) != ex
+	}
+	cands := candidatePoints(r, []Paths{e.Subj, e.Clip, e.Sol}, 5)
+	sel := selectProbes(r, cands, bad, farIn, 8, 16)
+	e.Probes, e.Hints = sel.Probes, sel.Hints
+	nx := 0
+	for _, b := range e.Beams {
+		nx += len(b.Xs)
+	}
+	e.Nontriv = len(e.Beams) >= 3 && nx > 0
+}
+
+func nzp(p Path) Path {
+	if p == nil {
+		return Path{}
+	}
+	return p
 }
 
 func driveSweep(r *rand.Rand, w *writer, n int) {
@@ -80,8 +166,8 @@ func driveSweep(r *rand.Rand, w *writer, n int) {
 		default:
 			subj, clip = genClosedSet(r, 8), genClosedSet(r, 2)
 		}
-		e := &SweepEv{Ev: "Sweep", Chk: chkFor("SWEEP"), Ct: 1 + r.Intn(4), Fr: r.Intn(4), Subj: subj, Clip: clip}
-		execSweep(e)
+		e := &SweepEv{Ev: "Sweep", Chk: chkFor("SWEEP"), Ct: 1 + r.Intn(4), Fr: r.Intn(4), Subj: subj, Clip: clip, Tree: r.Intn(3) == 0}
+		execSweep(r, e)
 		w.emit(e)
 	}
 }
